@@ -172,8 +172,12 @@ PROPS = {
         rules=[purity.pur_rules, purity.rng_src, purity.rng_fwd, purity.sch_rules, dtype.dtype_inherit,
                forms.form_agree,
                forms.form_agree_tables, forms.util_prod, layout.est_rules, sensor.sm_accum,
-               diff.wrap_rules],
-        decided=['no public callable writes into an argument, a constructor-argument field or a '
+               diff.wrap_rules, smmodel.sm_model, smmodel.sm_params, layout.result_form],
+        decided=['the sensor tables (estimator states, simulator parameter table, filter result '
+                 'tables) name the same term the same way: sm_<output axis><input axis>, '
+                 'bias_<axis> (constructor and Parameters.apply executed for a covering family '
+                 'of enable masks)',
+                 'no public callable writes into an argument, a constructor-argument field or a '
                  'shared constant (may-alias effect analysis with interprocedural summaries; '
                  'pandas-3 copy-on-write model)',
                  'every random draw comes from check_random_state(<parameter>); no hidden '
